@@ -458,6 +458,10 @@ func (r *run) readerChain(res *result) *mismatch {
 			return mm("readerchain:newchain", "NewChain: "+err.Error(), nil, nil)
 		}
 		n := head.Number + 1
+		r.w.counts["placeholder views"]++
+		if n >= core.BlockHashLag {
+			r.w.counts["placeholder views at or above BlockHashLag"]++
+		}
 		if jerr := r.placeholderSysDiff(n)(empty.StateUpdate.StateDiff.StorageDiffs[*core.BlockHashStorageContract]); jerr != nil {
 			return mm("readerchain:placeholder-registry", jerr.Error(), nil, nil)
 		}
@@ -563,6 +567,9 @@ func TestPreconfReplay(t *testing.T) {
 	}
 	for k, v := range tags {
 		out.Count("case "+k, v)
+	}
+	for k, v := range w.counts {
+		out.Count(k, v)
 	}
 	out.Done(len(in.Behaviours), steps)
 }
